@@ -40,7 +40,8 @@ def impl(c):
     for key, fn, opt in (("plain", lambda d: R.rank(d).rank, False), ("opt", lambda d: R.rank(d, optimized=True).rank, True), ("r_plain", lambda d: R.r(d), False), ("r_opt", lambda d: R.r(d, optimized=True), True)):
         d = common.build_impl_divisor(G, c["D"], rng=rng); out[key] = fn(d)
     d = common.build_impl_divisor(G, c["D"], rng=rng); K = CFOrientation(d.graph, []).canonical_divisor(); kd = K - d
-    out["r_KD"] = R.r(kd); out["deg"] = sum(c["D"]); out["genus"] = d.graph.get_genus()
+    # r(K - D) costs a search over all effective divisors up to its degree: only asked when that degree is small (otherwise -2 = not asked)
+    out["r_KD"] = R.r(kd) if kd.get_total_degree() <= 8 else -2; out["deg"] = sum(c["D"]); out["genus"] = d.graph.get_genus()
     out["types"] = all(type(out[k]) is int for k in ("plain", "opt", "r_plain", "r_opt", "r_KD"))
     return out
 def model_lines(c):
@@ -53,7 +54,7 @@ def judge(c, r, mo):
     for k, want in (("plain", mp), ("r_plain", mp), ("opt", mopt), ("r_opt", mopt)):
         if o[k] != want: out.append({"what": "%s = %s, the verified model gives %d (pool=%s, band=%s)" % (k, o[k], want, c["pool"], c["band"])})
     if mp != mopt: out.append({"what": "model modes disagree (%d vs %d): Riemann-Roch hypothesis of C03_rank_optimized_partial refuted?" % (mp, mopt)})
-    if o["plain"] - o["r_KD"] != o["deg"] + 1 - o["genus"]: out.append({"what": "Riemann-Roch fails on the implementation's numbers: r(D)=%d r(K-D)=%d deg=%d g=%d" % (o["plain"], o["r_KD"], o["deg"], o["genus"])})
+    if o["r_KD"] != -2 and o["plain"] - o["r_KD"] != o["deg"] + 1 - o["genus"]: out.append({"what": "Riemann-Roch fails on the implementation's numbers: r(D)=%d r(K-D)=%d deg=%d g=%d" % (o["plain"], o["r_KD"], o["deg"], o["genus"])})
     if o["deg"] > 2 * o["genus"] - 2 and o["plain"] != max(-1, o["deg"] - o["genus"]) and o["plain"] != -1: out.append({"what": "deg > 2g-2 but r(D) != deg - g"})
     if not o["types"]: out.append({"what": "rank values are not plain ints"})
     return out[:2]
